@@ -75,7 +75,10 @@ impl TrainDisp {
             }
         } else {
             self.time_update
-        };
+        }
+        // The estimate differs between the branches of a diverge: after a blocked train is routed
+        // back onto the other branch its next event still cannot precede what is already fixed
+        .max(self.time_update);
 
         let disp_node_idx_save = self.disp_node_idx_free;
         let offset_save = self.offset_free;
